@@ -451,7 +451,7 @@ func mpi(v *big.Int) []byte { return data(v.Bytes()) }
 
 type built struct {
 	wire []byte
-	bad2 bool // a type-2 message that may be malformed (see finding F9)
+	bad2 bool // a type-2 message that may be malformed (the fixed nil-gy defect needs one followed by a commit)
 }
 
 func buildTyped(g *hx.Gen, r *hx.Rand) built {
@@ -640,12 +640,10 @@ func genRecv(g *hx.Gen, n int) {
 				g.Stat("recv.query")
 			}
 		}
-		tag := ""
 		if bad2 {
-			tag = " f9=1"
 			g.Stat("recv.has-malformed-commit")
 		}
-		g.Emit("recv seed=%d fs=%d in=%s dg=%s%s", seed, hx.Pick(r, fragSizes), hexList(ins), hexList2(dgs), tag)
+		g.Emit("recv seed=%d fs=%d in=%s dg=%s", seed, hx.Pick(r, fragSizes), hexList(ins), hexList2(dgs))
 	}
 }
 
